@@ -306,17 +306,41 @@ Proof.
   - destruct (item_text_good it0 Hs') as [G1 G2]. cbn [forallb]. rewrite G1, G2. split; reflexivity.
 Qed.
 
-(* a header name: a text without ':' (UmlSem.name_ok demands this and that a given key does not occur in it) *)
-Definition hname_ok (nm : option string) : bool := match nm with Some s => txt s && no_char ":" s | None => true end.
+(* a header name: name characters (printable, no quote / backslash / apostrophe / ';' -- colons allowed), stripped, no braces *)
+Definition hname_ok (nm : option string) : bool := match nm with Some s => ntxt s | None => true end.
+
+Lemma txt_nameok : forall s, txt s = true -> nameok s = true.
+Proof.
+  intros s H. unfold txt in H. split_and. unfold nameok. apply andb_true_iff. split; [|assumption].
+  rewrite name_chars_allc. rewrite plain_allc in *. cls.
+Qed.
+
+Lemma txt_ntxt : forall s, txt s = true -> ntxt s = true.
+Proof.
+  intros s H. unfold ntxt. rewrite (txt_nameok s H). cbn [andb]. unfold txt in H. split_and. unfold UmlSem.nbr.
+  apply andb_true_iff. split; assumption.
+Qed.
+
+Lemma txt_hname : forall s, txt s = true -> hname_ok (Some s) = true.
+Proof. intros s H. exact (txt_ntxt s H). Qed.
+
+Lemma nn_hname : forall s, nameok s = true -> UmlSem.nbr s = true -> hname_ok (Some s) = true.
+Proof. intros s H1 H2. cbn [hname_ok]. unfold ntxt. rewrite H1, H2. reflexivity. Qed.
+
+Lemma mname_hname : forall s, mname s = true -> hname_ok (Some s) = true.
+Proof. intros s H. unfold mname in H. apply andb_true_iff in H. destruct H as [H _]. exact H. Qed.
+
+Lemma txtc_hname : forall nm, match nm with Some n => txt n && no_char ":" n | None => true end = true -> hname_ok nm = true.
+Proof. intros nm H. destruct nm as [n|]; [|reflexivity]. split_and. apply txt_hname. assumption. Qed.
 
 Lemma name_ok_hname : forall a nm, UmlSem.name_ok a nm = true -> hname_ok nm = true.
 Proof.
   intros a nm H. destruct nm as [n|]; [|reflexivity]. cbn [UmlSem.name_ok] in H. split_and.
-  cbn [hname_ok]. apply andb_true_iff. split; assumption.
+  apply txt_hname. assumption.
 Qed.
 
 Lemma ident_name_ok : forall s, ident s = true -> hname_ok (Some s) = true.
-Proof. intros s H. destruct (ident_parts s H) as [H1 [H2 _]]. cbn [hname_ok]. rewrite H1, H2. reflexivity. Qed.
+Proof. intros s H. destruct (ident_parts s H) as [H1 _]. exact (txt_hname s H1). Qed.
 
 Lemma head_good : forall id nm ty, ident id = true -> hname_ok nm = true -> ident ty = true ->
   headok id nm ty = true /\ nobrace id = true /\ nobrace (name_text nm) = true /\ nobrace ty = true.
@@ -324,9 +348,9 @@ Proof.
   intros id nm ty Hi Hn Ht.
   destruct (ident_parts id Hi) as [I1 [I2 [I3 I4]]]. destruct (ident_parts ty Ht) as [T1 [T2 [T3 T4]]].
   unfold idok in I3, T3. apply andb_true_iff in I3, T3. destruct I3 as [I3 I5]. destruct T3 as [T3 T5].
-  assert (N : match nm with Some s => textok s && no_char ":" s | None => true end = true /\ nobrace (name_text nm) = true).
-  { destruct nm as [s|]; [|split; reflexivity]. cbn [hname_ok] in Hn. apply andb_true_iff in Hn. destruct Hn as [N1 N2].
-    cbn [name_text]. rewrite (txt_textok s N1), N2, (txt_nobrace s N1). split; reflexivity. }
+  assert (N : match nm with Some s => nameok s | None => true end = true /\ nobrace (name_text nm) = true).
+  { destruct nm as [s|]; [|split; reflexivity]. cbn [hname_ok] in Hn. unfold ntxt, UmlSem.nbr in Hn. split_and.
+    cbn [name_text]. split; [assumption | apply nobrace_nc; assumption]. }
   destruct N as [N1 N2]. unfold headok. rewrite I3, I2, I5, N1, T3, T2, T5. repeat split; assumption || reflexivity.
 Qed.
 
@@ -352,28 +376,13 @@ Definition tgood (n : wnode) : Prop := wf_top n = true /\ nbq_node n = true.
 Lemma ngood_tgood : forall n, ngood n -> tgood n.
 Proof. intros n [G1 G2]. split; [exact (wf_node_wf_top n G1) | assumption]. Qed.
 
-Definition tname_ok (nm : option string) : bool := match nm with Some s => txt s | None => true end.
-
+(* (headok_top and headok coincide since the reader cuts the header at the colons outside quotes) *)
 Lemma elem_good_top : forall id nm ty ws f l tl,
-  ident id = true -> tname_ok nm = true -> ident ty = true -> wsok ws = true -> wsok tl = true ->
+  ident id = true -> hname_ok nm = true -> ident ty = true -> wsok ws = true -> wsok tl = true ->
   noise_ok l = true -> inert_txt l = true ->
   (forall t it, f t = Some it -> good it) ->
   tgood (WNode id nm ty (items_of ws f l) tl).
-Proof.
-  intros id nm ty ws f l tl Hi Hn Ht Hws Htl Hl Hin Hf.
-  destruct (elem_good id None ty ws f l tl Hi eq_refl Ht Hws Htl Hl Hin Hf) as [W _].
-  destruct (items_of_good ws f l Hws Hl Hin Hf) as [G1 G2].
-  destruct (ident_parts id Hi) as [I1 [I2 [I3 I4]]]. destruct (ident_parts ty Ht) as [T1 [T2 [T3 T4]]].
-  unfold idok in I3, T3. apply andb_true_iff in I3, T3. destruct I3 as [I3 I5]. destruct T3 as [T3 T5].
-  assert (N : match nm with Some s => textok s | None => true end = true /\ nobrace (name_text nm) = true).
-  { destruct nm as [s|]; [|split; reflexivity]. cbn [tname_ok] in Hn.
-    cbn [name_text]. rewrite (txt_textok s Hn), (txt_nobrace s Hn). split; reflexivity. }
-  destruct N as [N1 N2].
-  assert (HT : headok_top id nm ty = true) by (unfold headok_top; rewrite I3, I2, I5, N1, T3, T2, T5; reflexivity).
-  split.
-  - unfold wf_top. rewrite HT, W. reflexivity.
-  - rewrite nbq_node_eq, I4, N2, T4, G2. reflexivity.
-Qed.
+Proof. intros. apply ngood_tgood, elem_good; assumption. Qed.
 
 Lemma ngood_list : forall (A : Type) (P : A -> bool) (g : A -> wnode) l, (forall x, P x = true -> ngood (g x)) ->
   forallb P l = true ->
@@ -413,7 +422,7 @@ Ltac side :=
   | |- layok _ = true => first [hyp | vm_compute; reflexivity]
   | |- ident _ = true => first [hyp | vm_compute; reflexivity]
   | |- hname_ok None = true => reflexivity
-  | |- hname_ok _ = true => first [hyp | unfold hname_ok; hyp]
+  | |- hname_ok _ = true => first [hyp | apply txtc_hname; hyp]
   | |- _ => hyp
   end.
 
@@ -446,7 +455,7 @@ Lemma param_good : forall D p, param_ok D p = true -> ngood (tree_of_param p).
 Proof.
   intros D p H. pose proof (param_item_good D p H) as Hf. unfold param_ok in H. split_and.
   unfold tree_of_param. apply elem_good; try side; try lay.
-  cbn [hname_ok]. rewrite andb_true_iff. split; assumption.
+  apply nn_hname; assumption.
 Qed.
 
 Lemma params_good : forall D ps, forallb (param_ok D) ps = true ->
@@ -469,7 +478,7 @@ Lemma op_good : forall D o, op_ok D o = true -> ngood (tree_of_op o).
 Proof.
   intros D o H. pose proof (op_item_good D o H) as Hf. unfold op_ok in H. split_and.
   unfold tree_of_op. apply elem_good; try side; try lay.
-  apply ident_name_ok. assumption.
+  apply mname_hname. assumption.
 Qed.
 
 Lemma attr_item_good : forall D a, attr_ok D a = true -> forall t it, attr_item a t = Some it -> good it.
@@ -486,7 +495,7 @@ Lemma attr_good : forall D a, attr_ok D a = true -> ngood (tree_of_attr a).
 Proof.
   intros D a H. pose proof (attr_item_good D a H) as Hf. unfold attr_ok in H. split_and.
   unfold tree_of_attr. apply elem_good; try side; try lay.
-  cbn [hname_ok]. rewrite andb_true_iff. split; assumption.
+  apply nn_hname; assumption.
 Qed.
 
 Lemma member_good : forall D m, member_ok D m = true -> ngood (tree_of_member m).
@@ -495,7 +504,7 @@ Proof.
   - exact (op_good D o H).
   - exact (attr_good D a H).
   - split_and. apply elem_good; try side; try lay.
-    + apply ident_name_ok. assumption.
+    + apply mname_hname. assumption.
     + exact no_items_good.
 Qed.
 
@@ -520,7 +529,7 @@ Lemma class_good : forall D c, class_ok D c = true -> ngood (tree_of_class c).
 Proof.
   intros D c H. pose proof (class_item_good D c H) as Hf. unfold class_ok in H. split_and.
   unfold tree_of_class. apply elem_good; try side; try lay.
-  cbn [hname_ok]. rewrite andb_true_iff. split; assumption.
+  apply txt_hname. assumption.
 Qed.
 
 Lemma package_item_good : forall D p, package_ok D p = true -> forall t it, package_item p t = Some it -> good it.
@@ -588,12 +597,11 @@ Proof.
   - inversion E. apply children_good; try side; cbn [forallb]; [rewrite T1 | rewrite T2]; reflexivity.
 Qed.
 
-(* the NAME of an association may hold colons: a top-level node only *)
-Lemma assoc_good : forall D x, assoc_ok D x = true -> tgood (tree_of_assoc x).
+Lemma assoc_good : forall D x, assoc_ok D x = true -> ngood (tree_of_assoc x).
 Proof.
   intros D x H. pose proof (assoc_item_good D x H) as Hf. unfold assoc_ok in H. split_and.
-  unfold tree_of_assoc. apply elem_good_top; try side; try lay.
-  destruct (sx_name x) as [n|]; [|reflexivity]. split_and. cbn [tname_ok]. assumption.
+  unfold tree_of_assoc. apply elem_good; try side; try lay.
+  destruct (sx_name x) as [n|]; [|reflexivity]. split_and. cbn [hname_ok]. assumption.
 Qed.
 
 (* ---------------------------------------------------------------- the diagram *)
@@ -618,7 +626,7 @@ Proof.
   - exact (ngood_tgood _ (class_good D c H)).
   - exact (ngood_tgood _ (package_good D p H)).
   - exact (ngood_tgood _ (inh_good D i H)).
-  - exact (assoc_good D x H).
+  - exact (ngood_tgood _ (assoc_good D x H)).
   - apply ngood_tgood. split_and. apply elem_good; try side; try lay.
     exact no_items_good.
 Qed.
@@ -630,7 +638,7 @@ Lemma ref_good : forall r,
   ngood (we_node (welem_of_ref r)).
 Proof.
   intros r H. split_and. unfold welem_of_ref. cbn [we_node]. apply elem_good; try side; try lay.
-  - cbn [hname_ok]. rewrite andb_true_iff. split; assumption.
+  - apply txt_hname. assumption.
   - exact no_items_good.
 Qed.
 
